@@ -142,6 +142,13 @@ func c19values(c *runner.Ctx, i int) {
 		if err := v.UnmarshalText(t); err != nil || v != u {
 			c.Violation("C19:text:roundtrip", fmt.Sprintf("UnmarshalText(MarshalText) = %v, %v", v, err), nil)
 		}
+		// into a variable that already holds another UUID (a record variable reused while decoding a stream)
+		var w gocql.UUID
+		r.Read(w[:])
+		prev := w
+		if err := w.UnmarshalText(t); err != nil || w != u {
+			c.Violation("C19:text:roundtrip:reused-destination", fmt.Sprintf("UnmarshalText(%s) into a variable that held %v = %v, %v", t, prev, w, err), nil)
+		}
 	}
 	if j, err := json.Marshal(u); err != nil || string(j) != `"`+s+`"` {
 		c.Violation("C19:json:marshal", fmt.Sprintf("json.Marshal = %s, %v", j, err), nil)
@@ -149,6 +156,12 @@ func c19values(c *runner.Ctx, i int) {
 		var v gocql.UUID
 		if err := json.Unmarshal(j, &v); err != nil || v != u {
 			c.Violation("C19:json:roundtrip", fmt.Sprintf("json round trip = %v, %v", v, err), nil)
+		}
+		var w gocql.UUID
+		r.Read(w[:])
+		prev := w
+		if err := json.Unmarshal(j, &w); err != nil || w != u {
+			c.Violation("C19:json:roundtrip:reused-destination", fmt.Sprintf("json.Unmarshal(%s) into a variable that held %v = %v, %v", j, prev, w, err), nil)
 		}
 	}
 	if b, err := gocql.UUIDFromBytes(u[:]); err != nil || b != u {
